@@ -87,6 +87,41 @@ func (r *Run) set(st *State, key, term string) {
 	st.mem[key] = r.facts.Define(keyPrefix(key), r.keySort(key), term)
 }
 
+type storeRec struct{ arr, idx, val string }
+
+// setStore records arr' = store(arr, idx, val) so that later reads at a syntactically
+// identical (or provably different) index can be simplified when the term is built.
+func (r *Run) setStore(st *State, key, arr, idx, val string) {
+	n := r.facts.Fresh(keyPrefix(key), r.keySort(key))
+	r.facts.Assert(sEq(n, sStore(arr, idx, val)))
+	r.stores[n] = storeRec{arr, idx, val}
+	st.mem[key] = n
+}
+
+// readArr builds select(arr, idx), looking through recorded stores.
+func (r *Run) readArr(arr, idx string) string {
+	for i := 0; i < 64; i++ {
+		sr, ok := r.stores[arr]
+		if !ok {
+			break
+		}
+		if sr.idx == idx {
+			return sr.val
+		}
+		if r.distinctRefs(sr.idx, idx) {
+			arr = sr.arr
+			continue
+		}
+		break
+	}
+	return sSelect(arr, idx)
+}
+
+// distinctRefs: two different allocation constants are different references.
+func (r *Run) distinctRefs(a, b string) bool {
+	return a != b && r.allocs[a] && r.allocs[b]
+}
+
 func keyPrefix(key string) string {
 	k := strings.NewReplacer("|", "_", " ", "", "*", "p", "[", "", "]", "", "(", "", ")", "", "{", "", "}", "", ",", "_", "/", "_").Replace(key)
 	if len(k) > 40 {
@@ -313,12 +348,12 @@ func (r *Run) assumeWellTyped(v Val, st *State) {
 	case KSlice:
 		r.facts.Assert(fmt.Sprintf("(and (<= 0 (s_off %[1]s)) (<= 0 (s_len %[1]s)) (<= (s_len %[1]s) (s_cap %[1]s)) (>= (s_base %[1]s) 0) (=> (= (s_base %[1]s) 0) (= (s_cap %[1]s) 0)))", v.S))
 		if st != nil {
-			r.facts.Assert(fmt.Sprintf("(<= (s_base %s) %s)", v.S, r.get(st, "g|$heap")))
+			r.facts.Assert(fmt.Sprintf("(<= (root (s_base %s)) %s)", v.S, r.get(st, "g|$heap")))
 		}
 	case KRef, KPtr:
 		if v.S != "" {
 			if st != nil {
-				r.facts.Assert(fmt.Sprintf("(<= %s %s)", v.S, r.get(st, "g|$heap")))
+				r.facts.Assert(fmt.Sprintf("(<= (root %s) %s)", v.S, r.get(st, "g|$heap")))
 			}
 		}
 	case KIface:
